@@ -34,7 +34,7 @@ CMP = ("x", "fun", "jac", "nfev", "njev", "nit", "sk", "yk")
 def floors(tier):
     return {"callback_states": 300, "states_vs_maxiter_run": 300, "retained_states_rechecked": 800, "crash_points": 500,
             "restarts_from_retained_state": 500, "callback_free_runs_compared": 60, "callback_free_runs_compared_with_objective_redefined": 60, "callback_free_runs_compared_with_nested_run_in_callback": 30, "problems_with_reused_gradient_buffer": 20, "finite_difference_restarts_from_retained_state": 100,
-            "ufd_runs_stopped_by:FTOL": 20, "continuations_compared_to_the_end": 400, "continuations_through_a_failed_line_search": 40, "__nontrivial__": 300}
+            "ufd_runs_stopped_by:FTOL": 20, "continuations_compared_to_the_end": 400, "continuations_through_a_failed_line_search": 40, "restarts_from_states_right_after_a_memory_refresh": 6, "__nontrivial__": 300}
 
 
 def exhaustive(tier):
@@ -62,6 +62,14 @@ def cases(tier, seed):
                                             nmax=4, nmin=2, boxes=("none", "mixed", "lower"), starts=("interior", "face"))
             spec.update(K=int(rng.integers(20, 45)), maxls=int(gen.pick(rng, [1, 2, 2, 3])), long=True)
         yield spec
+    for i in range(48 if tier == "quick" else 1500):
+        # magnitudes: variables living on length scales from 1e-8 to 1e16 (a chained Rosenbrock valley in those units): the curvature
+        # memory spans dozens of decades, the factorisation of its middle matrix fails now and then and the memory is refreshed mid-run
+        ps = gen.rand_spec(rng, ("scaled_rosenbrock",), nmax=5, nmin=2, boxes=("none", "none", "lower"), starts=("interior",))
+        yield {"problem": ps, "maxcor": int(rng.integers(3, 8)), "maxls": 20, "K": int(rng.integers(16, 30)), "scaler": None, "multi_scale": True}
+    for i in range(400 if tier == "quick" else 12000):
+        ps = gen.rand_spec(rng, ("scaled_rosenbrock",), nmax=6, nmin=2, boxes=("none", "none", "lower"), starts=("interior",))
+        yield {"kind": "refresh", "problem": ps, "maxcor": int(rng.integers(3, 10)), "K": 40}
     # ... nor a run with finite-difference gradients whose callback runs another, independent optimisation (a probe with other
     # differencing settings and another box) before returning False
     for i in range(60 if tier == "quick" else 1500):
@@ -222,6 +230,50 @@ def run_nested_callback(spec, out):
     out.sample = dict(spec=spec, callbacks=len(b.cb))
 
 
+def run_refresh(spec, out):
+    """Variables on length scales from 1e-8 to 1e16: now and then the middle matrix of the memory cannot be factorised and the run
+    refreshes its memory (the state of that iteration carries no pair). A restart from exactly that state has nothing to restore:
+    its next two iterates are those of the uninterrupted run, digit for digit."""
+    P = gen.make_problem(spec["problem"])
+    tags = dict(family=P.spec["family"], kind="refresh")
+    base = dict(jac="callable", maxcor=spec["maxcor"], maxls=20, ftol=0.0, gtol=0.0, maxfun=100000)
+    name = f"{P.spec['family']} n={P.n} maxcor={spec['maxcor']}"
+    main_tr = probes.run_min(P, dict(base, maxiter=spec["K"], cb="never"))
+    out.count("runs_on_variables_of_wildly_different_scales")
+    if main_tr.exc is not None:
+        out.count("runs_raised")
+        return
+    by_nit = {int(r["snap"]["nit"]): r for r in main_tr.cb}
+    prev_pairs, prev_nit = None, None
+    for r in main_tr.cb:
+        k = int(r["snap"]["nit"])
+        m = 0 if r["snap"]["sk"] is None else int(r["snap"]["sk"].shape[0])
+        refreshed = prev_pairs is not None and prev_pairs >= 2 and m == 0 and k == prev_nit + 1
+        prev_pairs, prev_nit = m, k
+        if not refreshed:
+            continue
+        out.count("states_right_after_a_memory_refresh")
+        st = r["ref"]
+        for k_end in (k + 1, k + 2):
+            if k_end not in by_nit:
+                continue
+            rs = probes.run_min(P, dict(base, maxiter=k_end), checkpoint=st, x0=np.array(st.x, dtype=float, copy=True))
+            out.count("restarts_from_retained_state")
+            out.count("restarts_from_states_right_after_a_memory_refresh")
+            if rs.exc is not None:
+                out.violate("restart_from_retained_state_raised", f"{name}: restart from the state of iteration {k} (memory just refreshed) raised {rs.exc!r}", **tags)
+                return
+            bad = probes.diff_states(rs.snap, by_nit[k_end]["snap"], fields=("x", "fun", "jac", "nfev", "njev", "nit"))
+            if bad and relerr(rs.snap["x"], by_nit[k_end]["snap"]["x"]) > 1e-9:
+                out.violate("recovery_differs_from_uninterrupted_run", f"{name}: the memory was refreshed in iteration {k} (its state carries no pair); a restart from "
+                            f"that state up to iteration {k_end} differs from the uninterrupted run in {bad} (x by "
+                            f"{relerr(rs.snap['x'], by_nit[k_end]['snap']['x']):.3e}): the run went on with something the state does not carry", **tags)
+                return
+            out.nontrivial = True
+    out.key = f"refresh/{P.spec['seed']}/{spec['maxcor']}"
+    out.sample = dict(spec=spec, callbacks=len(main_tr.cb))
+
+
 def run_fd_restart(spec, out):
     P = gen.make_problem(spec["problem"])
     tags = dict(family=P.spec["family"], kind="fd_restart", mode=str(spec["jac"]))
@@ -274,6 +326,9 @@ def run(spec):
     if spec.get("kind") == "fd_restart":
         run_fd_restart(spec, out)
         return out
+    if spec.get("kind") == "refresh":
+        run_refresh(spec, out)
+        return out
     if spec.get("kind") == "nested_callback":
         run_nested_callback(spec, out)
         return out
@@ -283,6 +338,9 @@ def run(spec):
     if spec.get("reuse_grad_buffer"):
         base["reuse_grad_buffer"] = True
         out.count("problems_with_reused_gradient_buffer")
+    if spec.get("multi_scale"):
+        base["gtol"] = 0.0
+        out.count("problems_with_variables_on_length_scales_1e-8_to_1e16")
     if spec.get("scaler"):
         # snapshot and maxiter=k run are compared in the same (scaled) units; the recovery restart is made on the explicitly
         # scaled objective without scaler, which is what the state's values refer to
@@ -405,6 +463,17 @@ def run(spec):
         out.count("continuations_followed_to_the_end")
         if rs.exc is not None:
             out.violate("restart_from_retained_state_raised", f"{name}: continuation from the state of callback #{j} raised {rs.exc!r}", **tags)
+            break
+        # the states handed out DURING the continuation are states of the whole run: their counters are those a continuation limited
+        # to that many iterations returns, i.e. the kept state's counters plus the calls made since
+        for j2, r2 in enumerate(rs.cb):
+            out.count("states_of_continued_runs_checked_for_their_counters")
+            if int(r2["snap"]["nfev"]) != int(st.nfev) + int(r2["nf"]) or int(r2["snap"]["njev"]) != int(st.njev) + int(r2["ng"]):
+                out.violate("state_differs_from_maxiter_run", f"{name}: continuation from the state of callback #{j} (nfev={st.nfev}, njev={st.njev}): the state handed to its "
+                            f"callback #{j2} reports nfev={r2['snap']['nfev']}, njev={r2['snap']['njev']} after {r2['nf']} objective and {r2['ng']} gradient calls "
+                            f"of the continuation", **dict(tags, what="snapshot_in_continuation"))
+                break
+        if out.violations:
             break
         diverged = False
         for r2 in rs.cb:
